@@ -19,6 +19,11 @@ if ! build; then
   exit 2
 fi
 rm -f "$HERE/build/build.$$.log"
+if [ "${1:-}" = "C18" ]; then
+  # race-instrumented build of the same bodies for the free-running pass
+  (cd "$HERE/harness" && flock "$HERE/build/.lock" go build -race -tags verif -overlay "$HERE/build/overlay.json" -o "$HERE/build/vrace" ./cmd/vrace) 2> "$HERE/build/vrace.$$.log" || { cat "$HERE/build/vrace.$$.log" >&2; rm -f "$HERE/build/vrace"; }
+  rm -f "$HERE/build/vrace.$$.log"
+fi
 if [ "${1:-}" = "replay" ]; then exec "$BIN" replay "$2"; fi
 ID="$1"; TIER="${2:-quick}"
 exec "$BIN" "$ID" --tier "$TIER"
